@@ -832,3 +832,11 @@ M("C02-const-ptr-polarity", "C02", "src/interrogate/typeManager.cxx",
 M("C02-benign-nonconst-ref-local", "C02", "src/interrogate/typeManager.cxx",
   "  case CPPDeclaration::ST_reference:\n    return !is_const(type->as_reference_type()->_pointing_at);", "  case CPPDeclaration::ST_reference: {\n    CPPType *target = type->as_reference_type()->_pointing_at;\n    return !is_const(target);\n  }",
   benign=True)
+
+MUTANTS.append({"id": "C05-virtual-inference-short-circuited", "prop": "C05", "benign": False,
+  "expect": "R05.5|define_struct_type|define_method",
+  "edits": [("src/interrogate/interrogateBuilder.cxx", "  bool has_virt_methods = cpptype->is_polymorphic();\n", ""),
+            ("src/interrogate/interrogateBuilder.cxx", "} else if (has_virt_methods && (base_type", "} else if (cpptype->is_polymorphic() && (base_type")]})
+M("C05-benign-virtual-inference-renamed", "C05", "src/interrogate/interrogateBuilder.cxx",
+  "  bool has_virt_methods = cpptype->is_polymorphic();\n", "  const bool has_virt_methods = cpptype->is_polymorphic();\n",
+  benign=True)
